@@ -3,7 +3,7 @@ EXTENDS Bridge, Json
 CONSTANTS MaxLen, Emit
 
 \* what a client may ask for: service A hosts one interface, service B another, service-info goes to the resolver
-Alpha == {Req(k, s) : k \in {"ok", "stream", "oneway", "error"}, s \in {"A", "B"}} \cup {Req("closing", "A"), Req("getinfo", "R")}
+Alpha == {Req(k, s) : k \in {"ok", "stream", "oneway", "error", "descr"}, s \in {"A", "B"}} \cup {Req("closing", "A"), Req("getinfo", "R")}
 Last  == Alpha \cup {Req("upgrade", "A"), Req("upgrade", "B")}
 
 Seqs == UNION {{s \in [1..n -> Last] : \A k \in 1..(n - 1) : s[k] \in Alpha} : n \in 0..MaxLen}
